@@ -255,26 +255,24 @@ Require Import Blots.EvalFull Blots.EvalAll Blots.DisplayNum Blots.proofs.AggPan
 From Coq Require Import Floats.SpecFloat.
 
 (* ---- C01_builtin_call_no_panic_full, for the dispatcher that really has every arm: after the arity
-        check no arm panics.  Three named side conditions, each about something outside the
-        transcription, each NECESSARY in the model (examples below):
+        check no arm panics.  Two named side conditions, each about something outside the
+        transcription, each NECESSARY in the model (a third, time_now's "clock not before 1970", went away
+        with repo fix bf56486: the arm is total now and so is the model's):
           percentile  p is a genuine double, the list has <= 2^53 elements (AggPanics.args_ok; spec_float
                       has non-canonical inhabitants that no f64 corresponds to);
           format      displaying the numbers among the arguments does not overflow the i32 / i64
                       arithmetic of format_display_number (true of every genuine double under the real
-                      log10: C01_format_condition_holds_for_doubles);
-          time_now    the system clock is not before 1970 (duration_since(UNIX_EPOCH).unwrap()). ---- *)
+                      log10: C01_format_condition_holds_for_doubles). ---- *)
 Theorem C01_builtin_call_no_panic_all : forall o cb b args st,
   cb_safe cb -> can_accept (builtin_arity b) (Datatypes.length args) = true ->
   (b = B_percentile -> args_ok args) ->
   (b = B_format -> format_display_safe o args) ->
-  (b = B_time_now -> o_now o <> None) ->
   fst (builtin_all o cb b args st) <> Panic.
 Proof. exact builtin_all_no_panic. Qed.
 Check C01_builtin_call_no_panic_all : forall o cb b args st,
   cb_safe cb -> can_accept (builtin_arity b) (Datatypes.length args) = true ->
   (b = B_percentile -> args_ok args) ->
   (b = B_format -> format_display_safe o args) ->
-  (b = B_time_now -> o_now o <> None) ->
   fst (builtin_all o cb b args st) <> Panic.
 Print Assumptions C01_builtin_call_no_panic_all.
 
@@ -284,14 +282,12 @@ Theorem C01_builtin_call_no_panic_all_axiom_free : forall o cb b args st,
   cb_safe cb -> can_accept (builtin_arity b) (Datatypes.length args) = true ->
   (b = B_percentile -> BuiltinsAgg.bi_percentile args <> Panic) ->
   (b = B_format -> format_display_safe o args) ->
-  (b = B_time_now -> o_now o <> None) ->
   fst (builtin_all o cb b args st) <> Panic.
 Proof. exact builtin_all_no_panic_gen. Qed.
 Check C01_builtin_call_no_panic_all_axiom_free : forall o cb b args st,
   cb_safe cb -> can_accept (builtin_arity b) (Datatypes.length args) = true ->
   (b = B_percentile -> BuiltinsAgg.bi_percentile args <> Panic) ->
   (b = B_format -> format_display_safe o args) ->
-  (b = B_time_now -> o_now o <> None) ->
   fst (builtin_all o cb b args st) <> Panic.
 Print Assumptions C01_builtin_call_no_panic_all_axiom_free.
 
@@ -336,9 +332,9 @@ Check C01_operators_no_panic_all : forall o cb op l r st,
 Print Assumptions C01_operators_no_panic_all.
 
 (* the Panic arms are live code of the model / the side conditions are needed *)
-Example C01_time_now_panics_before_the_epoch : forall o cb st,
-  o_now o = None -> fst (builtin_all o cb B_time_now [] st) = Panic.
-Proof. exact time_now_needs_its_clock. Qed.
+Example C01_time_now_is_total : forall o cb st,
+  fst (builtin_all o cb B_time_now [] st) = Ok (VNum (o_now o)).
+Proof. exact time_now_total. Qed.
 Example C01_dyn_fmt_unreachable_arm_is_modelled : dyn_go DArg EmptyString [] = Panic.
 Proof. reflexivity. Qed.
 Example C01_format_slice_panics_without_arity_check : forall o, bi_format o [] = Panic.
